@@ -174,7 +174,9 @@ func c13Workloads(tier string) []c13Workload {
 				q("SELECT a.id FROM MID a WHERE EXISTS (SELECT 1 FROM t300 b WHERE b.v = a.v AND b.k = a.k)"), q("SELECT id, (SELECT MAX(b.v) FROM t300 b WHERE b.k = a.k) AS m FROM MID a WHERE v IN (SELECT v FROM t300 WHERE k = 3)"),
 				// a derived table inside a correlated subquery: every goroutine loads "(SELECT * FROM t300) s" (race-derived-fileinfo)
 				q("SELECT id, (SELECT COUNT(*) FROM (SELECT * FROM t300) s WHERE s.k = a.k) AS c FROM MID a"),
-				q("SELECT a.id FROM MID a WHERE a.v IN (SELECT s.v FROM (SELECT v, k FROM t300 WHERE k < 12) s WHERE s.k = a.k)")}},
+				q("SELECT a.id FROM MID a WHERE a.v IN (SELECT s.v FROM (SELECT v, k FROM t300 WHERE k < 12) s WHERE s.k = a.k)"),
+				// inline data in a correlated subquery: every goroutine names its temporary view with file.RandomString (race-random-string)
+				q("SELECT a.id FROM MID a WHERE EXISTS (SELECT 1 FROM CSV(',', DATA::('a,b\n1,2\n3,4')) x WHERE x.a = a.k)")}},
 		{Name: "subquery-outer-refs", Sites: "correlated subqueries whose goroutines share the field-index cache of the outer record (reference_scope.go)",
 			Queries: []string{"SELECT id, (SELECT COUNT(*) FROM t300 b WHERE b.v = a.v OR b.k = a.k OR b.id = a.id OR b.s = a.s) AS c FROM t300 a WHERE id < 60"}},
 		{Name: "functions", Sites: "built-in functions with process-wide state evaluated in worker goroutines: RAND (shared generator), regular expression and datetime-format caches, NOW, JSON_VALUE, user-defined scalar functions",
